@@ -4,6 +4,7 @@
 //   TR <path> <cut>      same, but the report is cut <cut> bytes before its end; prints ok:<paths> | err
 //   BD <basedir>         header round trip of the base dir
 //   CM <arg> <arg>..     header round trip of the command line
+//   GH <len> <hash> <n>  group header round trip (decimal length, decimal 128-bit hash, number of paths)
 use super::*;
 use crate::arg::Arg;
 use crate::file::{FileHash, FileLen};
@@ -102,6 +103,35 @@ fn verif_report_driver() {
                 let p = path_of(&unhex(parts[1]));
                 let data = write_report(base, vec![], vec![p, Path::from("/other/file")]);
                 read_groups(data)
+            }
+            "GH" => {
+                // group header round trip: one group of the given length and hash with <n> paths; prints what the reader sees
+                let len: u64 = parts[1].parse().unwrap();
+                let hash: u128 = parts[2].parse().unwrap();
+                let n: usize = parts[3].parse().unwrap();
+                let files: Vec<Path> = (0..n).map(|i| Path::from(format!("/dir/f{}", i).as_str())).collect();
+                let groups = vec![FileGroup { file_len: FileLen(len), file_hash: FileHash::from(hash), files }];
+                let mut data = Vec::new();
+                {
+                    let mut w = ReportWriter::new(&mut data, false);
+                    w.write_as_text(&header(base, vec![Arg::from("fclones"), Arg::from("group")]), groups.iter()).unwrap();
+                }
+                let r = std::panic::catch_unwind(move || {
+                    let mut reader = TextReportReader::new(std::io::BufReader::new(Cursor::new(data)));
+                    if reader.read_header().is_err() {
+                        return "hdr-err".to_string();
+                    }
+                    let mut it = match Box::new(reader).read_groups() {
+                        Ok(g) => g,
+                        Err(_) => return "err".to_string(),
+                    };
+                    match it.next() {
+                        Ok(Some(g)) => format!("len={} hash={} n={}", g.file_len.0, g.file_hash, g.files.len()),
+                        Ok(None) => "none".to_string(),
+                        Err(_) => "err".to_string(),
+                    }
+                });
+                r.unwrap_or_else(|_| "panic".to_string())
             }
             "TR" => {
                 let p = path_of(&unhex(parts[1]));
